@@ -152,6 +152,10 @@ func solveAll(vcs []*VC, opts solveOpts) []*Result {
 	sem := make(chan struct{}, opts.parallel)
 	for i, j := range jobs {
 		i, j := i, j
+		if strings.HasPrefix(j.o.Static, "ok:") {
+			results[i] = &Result{Obl: j.o, Status: "unsat", Backend: "static-scan", Output: j.o.Static}
+			continue
+		}
 		if j.o.Static != "" {
 			results[i] = &Result{Obl: j.o, Status: "static-fail", Output: j.o.Static}
 			continue
